@@ -250,6 +250,7 @@ func diffNames(d []string) string {
 func (c *chessCtx) replay(o *Obs, c03 bool) (p *position.Position, perr string) {
 	rootFen := c.roots[o.Root-1].Fen()
 	var stack []snap
+	var wantBefore *snap
 	c.phaseExceeded = false
 	// only the snapshot that the final undo is compared with is needed: find the step that pushes it
 	needPush := -1
@@ -306,6 +307,8 @@ func (c *chessCtx) replay(o *Obs, c03 bool) (p *position.Position, perr string) 
 					stack = stack[:len(stack)-1]
 					if last {
 						c.res.count("C03.undo_compared", 1)
+						wb := before
+						wantBefore = &wb
 						after := takeSnap(p, true)
 						if d := snapDiff(before, after); len(d) > 0 {
 							kind := "undo-restores"
@@ -322,6 +325,47 @@ func (c *chessCtx) replay(o *Obs, c03 bool) (p *position.Position, perr string) 
 			}
 		}
 	})
+	// The same history once more with the queries the other way round: nothing is asked of the position before the move
+	// (so nothing is cached there), everything is asked of the position after it, and only then it is undone. What the
+	// restored position answers must be what the first pass recorded before the move.
+	if perr == "" && c03 && needPush >= 0 && wantBefore != nil {
+		perr2 := guard(func() {
+			q, _ := position.NewPositionFen(rootFen)
+			n := len(o.Path)
+			for i, op := range o.Path[:n-1] {
+				switch {
+				case op >= 0:
+					q.DoMove(engineMove(op, o.Kinds[i][0]))
+				case op == -2:
+					q.DoNullMove()
+				case op == -1:
+					q.UndoMove()
+				case op == -3:
+					q.UndoNullMove()
+				}
+			}
+			_ = takeSnap(q, true) // the child is asked everything
+			kind := "undo-restores"
+			if o.Path[n-1] == -1 {
+				q.UndoMove()
+			} else {
+				q.UndoNullMove()
+				kind = "undonull-restores"
+			}
+			c.res.count("C03.undo_compared_child_queried_first", 1)
+			after := takeSnap(q, true)
+			if d := snapDiff(*wantBefore, after); len(d) > 0 {
+				sig := c.driftSig(diffNames(d))
+				if !strings.HasPrefix(sig, "gamePhase-drift/") {
+					sig += "/only-the-child-was-queried"
+				}
+				c.disc("C03", kind, sig, o, wantBefore.Fen, d)
+			}
+		})
+		if perr2 != "" {
+			perr = perr2
+		}
+	}
 	return p, perr
 }
 
